@@ -915,7 +915,7 @@ class SetIndex(BaseSetIndexSortValues):
             other = self._other._meta
         else:
             other = self._other
-        return self.frame._meta.set_index(other, drop=self.drop)
+        return self.frame._meta.set_index(other, drop=self.drop, append=self.append)
 
     @property
     def _divisions_column(self):
@@ -938,7 +938,9 @@ class SetIndex(BaseSetIndexSortValues):
             if self.frame.npartitions > 1:
                 expr = RepartitionToFewer(expr, 1)
 
-            index_set = SetIndexBlockwise(expr, self._other, self.drop, None)
+            index_set = SetIndexBlockwise(
+                expr, self._other, self.drop, None, self.append
+            )
             return SortIndexBlockwise(index_set)
 
         if self.user_divisions is None:
@@ -963,6 +965,12 @@ class SetIndex(BaseSetIndexSortValues):
                 )
                 return SortIndexBlockwise(index_set)
 
+        if self.append:
+            raise NotImplementedError(
+                "set_index(append=True) is only supported where the frame doesn't "
+                "have to be shuffled: with sort=False, sorted=True, on a single "
+                "partition or if the new index is already sorted."
+            )
         return SetPartition(
             self.frame,
             self._other,
@@ -981,11 +989,13 @@ class SetIndex(BaseSetIndexSortValues):
         # TODO, handle setting index with other frame
         # A negative n takes all but the last / first rows of a partition: these
         # are not the first / last rows of the whole frame. The same holds for
-        # the rows of a partition whose boundaries are given by the user
+        # the rows of a partition whose boundaries are given by the user, and
+        # with append=True the partitions are sorted by the old index first
         if (
             isinstance(parent, Head)
             and parent.n >= 0
             and self.user_divisions is None
+            and not self.append
             and isinstance(self._other, (int, str))
             and self._other in self.frame.columns
         ):
@@ -996,6 +1006,7 @@ class SetIndex(BaseSetIndexSortValues):
             isinstance(parent, Tail)
             and parent.n >= 0
             and self.user_divisions is None
+            and not self.append
             and isinstance(self._other, (int, str))
             and self._other in self.frame.columns
         ):
@@ -1235,6 +1246,7 @@ class SetPartition(SetIndex):
         "shuffle_method",
         "options",  # Shuffle method options
     ]
+    append = False  # not supported, see SetIndex._lower
 
     def _lower(self):
         divisions = self.other._meta._constructor(self._divisions())
